@@ -17,11 +17,13 @@ ASSUMPTIONS = ['element-level truth is a subset of any sound variable-level repo
 SHARDS = {'quick': 8, 'thorough': 16}
 BUDGET = {'quick': 70, 'thorough': 1500}
 
-PROFILE = dc.PROFILE
+# inquiry=False: size/lbound/ubound of a variable that is also read in the same expression is a listed finding of C26
+# (and one listed manifestation here, kept alive by its replay); excluded by construction in the search
+PROFILE = dict(dc.PROFILE, inquiry=False)
+EXCLUDED_INQUIRY = 'size/lbound/ubound references not generated (known: mem-query-argument)'
 
 
-def names_of(symbols):
-    return {str(getattr(s, 'name', s)).lower().split('%')[0] for s in symbols}
+names_of = dc.names_of
 
 
 def flows(trace, frame_id):
@@ -75,38 +77,110 @@ def flows(trace, frame_id):
     return out
 
 
-from .c26 import vars_in, callee_intents  # noqa: E402
+from .c26 import vars_in, callee_intents, mem_query_args, header_exprs  # noqa: E402
 
 
-def why_uses_missing(case, table, nodes, reader, rinner, v):
-    """attribute 'v is read inside `reader` but not in its uses set' to the innermost node that shows it"""
-    p = rinner
-    # walk from the innermost statement that performed the read up to the reader
-    chain = []
-    while p and len(p) >= len(reader):
-        if p in nodes:
-            chain.append(p)
-        if p == reader or '.' not in p:
-            break
-        p = p.rsplit('.', 1)[0]
-    for q in chain:
-        n = nodes[q]
-        if v in names_of(n.uses_symbols):
-            continue
-        kind = table[q]['kind']
-        if kind == 'call':
-            ints = callee_intents(case, table[q]['stmt'])
-            if any(i is None for i in ints):
-                return 'reader-uses-set-misses-it:call-with-dummy-without-intent'
-            return 'reader-uses-set-misses-it:call:intents=' + ','.join(sorted({str(i) for i in ints}))
-        if v in names_of(n.defines_symbols):
-            return 'reader-uses-set-misses-it:may-define-kills-use'
-        return f'reader-uses-set-misses-it:{type(n).__name__}'
-    return 'reader-uses-set-misses-it:unattributed'
+def use_miss_reason(case, table, node, v, rinner, arrays):
+    """
+    why is ``v`` (read inside ``node`` by the statement at path ``rinner``) not in ``node.uses_symbols``?
+    One root cause = one answer, decided from the analysed IR:
+      partial-array-write-treated-as-full-definition  an earlier sibling that defines v on every path (possible only for
+                                                      a write of *other* elements of an array) removed the use
+      may-define-kills-use                            only conditional / zero-trip / masked definitions removed the use
+      mem-query-argument                              the reading statement also passes v to size/lbound/ubound/present
+      call:dummy-intent=..                            the reading statement is a CALL
+      <class>                                         anything else
+    """
+    line = table[rinner]['line'] if rinner in table else None
+    cause = dc.use_drop_cause(node, v, line)
+    if cause == 'definite-define' and v in arrays:
+        return 'partial-array-write-treated-as-full-definition'
+    if cause in ('may-define', 'definite-define'):
+        return 'may-define-kills-use'
+    ent = table.get(rinner)
+    if ent is not None and ent['kind'] == 'call':
+        st = ent['stmt']
+        actuals = list(st[2]) + list((st[3] if len(st) > 3 and st[3] else {}).values())
+        ints = callee_intents(case, st)
+        bound = sorted({str(ints[k]) if k < len(ints) else '?' for k, a_ in enumerate(actuals) if v in vars_in(a_)})
+        return 'reader-uses-set-misses-it:call:dummy-intent=' + (bound[0] if bound else 'not-an-argument')
+    if ent is not None and v in mem_query_args(header_exprs(ent['stmt'])):
+        return 'reader-uses-set-misses-it:mem-query-argument'
+    return f'reader-uses-set-misses-it:{type(node).__name__}'
+
+
+def diagnose_raw(ir_root, start, v):
+    """
+    Model of ``FindReads(start=start, candidate_set={v}, clear_candidates_on_write=True).visit(ir_root)`` for one
+    variable that records *where* the candidate is registered as read or dropped. Returns (events, ) with events
+    ('read', node) / ('clear', node, enclosing-chain) in visiting order.
+    """
+    from loki.ir import nodes as ir
+    events = []
+    state = {'active': False}
+
+    def expr_names(e):
+        from loki import FindVariables
+        return names_of(FindVariables().visit(e))
+
+    def reads(o, cand, names):
+        if state['active'] and cand and v in names:
+            events.append(('read', o))
+
+    def walk(o, cand, chain):
+        if isinstance(o, (tuple, list)):
+            for c in o:
+                cand = walk(c, cand, chain)
+            return cand
+        if not isinstance(o, ir.Node):
+            return cand
+        if o is start:
+            state['active'] = True
+        if isinstance(o, ir.Conditional):
+            reads(o, cand, expr_names(o.condition))
+            c1 = walk(tuple(o.body), cand, chain + (o,))
+            c2 = walk(tuple(o.else_body or ()), cand, chain + (o,))
+            return c1 or c2
+        if isinstance(o, ir.Loop):
+            reads(o, cand, expr_names(o.bounds))
+            return walk(tuple(o.body), cand, chain + (o,))
+        if isinstance(o, ir.WhileLoop):
+            reads(o, cand, expr_names(o.condition))
+            return walk(tuple(o.body), cand, chain + (o,))
+        if isinstance(o, ir.LeafNode):
+            if state['active']:
+                reads(o, cand, names_of(o.uses_symbols))
+                if v in names_of(o.defines_symbols):
+                    if cand:
+                        events.append(('clear', o, chain))
+                    return False
+            return cand
+        return walk(tuple(getattr(o, 'body', ()) or ()), cand, chain + (o,))
+
+    walk(ir_root, True, ())
+    return events
+
+
+def clear_reason(ev, v, arrays):
+    """classify the node at which FindReads dropped the candidate ``v`` although its value is still read later"""
+    from loki.ir import nodes as ir
+    _, node, chain = ev
+    if v in arrays:
+        if isinstance(node, ir.Assignment) and getattr(node.lhs, 'dimensions', None):
+            return 'partial-array-write-treated-as-full-definition'
+        if isinstance(node, (ir.CallStatement, ir.MaskedStatement)):
+            return 'partial-array-write-treated-as-full-definition'
+    if isinstance(node, (ir.MultiConditional, ir.TypeConditional, ir.MaskedStatement)) \
+            or any(isinstance(c, (ir.Loop, ir.WhileLoop)) for c in chain):
+        return 'candidate-cleared-by-write-that-may-not-execute'
+    if v in arrays:
+        return 'partial-array-write-treated-as-full-definition'
+    return f'candidate-cleared-by:{type(node).__name__}'
 
 
 def check_case(case, ctx):
     rendered = harness.render_case(case)
+    dc.set_alias_map(case)
     try:
         runs = dc.run_traced(case)
     except interp.UB:
@@ -117,28 +191,50 @@ def check_case(case, ctx):
         ctx.exclude(f'interpreter-unsupported:{str(e)[:30]}')
         ctx.case(case, False, ['unsupported'])
         return
+    if dc.selfcheck_sampled(case, ctx.thorough):
+        verdict = dc.interpreter_vs_gfortran(case, rendered, runs)
+        ctx.count('selfcheck:' + (verdict if verdict in ('ok', 'native-traps', 'skipped') else 'MISMATCH'))
+        if verdict == 'native-traps':
+            ctx.exclude('original-traps-at-runtime(UB not seen by the interpreter)')
+            ctx.case(case, False, ['ub-excluded'])
+            return
+        if verdict not in ('ok', 'skipped'):
+            ctx.fail('%s:harness:reference-interpreter-disagrees-with-gfortran' % ID, case, verdict)
     try:
         sf, routine = dc.parse_kernel(rendered, case['entry']['name'])
     except Exception as e:  # noqa
         ctx.reject(e, None)
         ctx.case(case, False, ['rejected'])
         return
-    from loki.analyse import dataflow_analysis_attached, loop_carried_dependencies, read_after_write_vars
+    from loki.analyse import dataflow_analysis_attached, loop_carried_dependencies, read_after_write_vars, FindWrites
+    from loki.ir import nodes as lir
     table = dc.statement_table(case, rendered)
     dovars = dc.do_variables(case)
+    arrays = dc.array_names(case)
     classes = set()
     nontrivial = False
+
+    def reading_leaf(reader, rinner):
+        """the outermost loki LeafNode on the way from the reading sibling down to the statement that performed the read
+        (FindReads consults the uses set of that node and does not look inside it)"""
+        parts = (rinner or reader).split('.')
+        for k in range(len(reader.split('.')), len(parts) + 1):
+            q = '.'.join(parts[:k])
+            if q in nodes and isinstance(nodes[q], lir.LeafNode):
+                return nodes[q]
+        return nodes.get(reader)
+
     try:
         with dataflow_analysis_attached(routine):
             nodes = dc.map_nodes(routine, table)
-            carried_cache, raw_cache = {}, {}
+            carried_cache, raw_cache, writes_cache = {}, {}, {}
             for it, fid in runs:
                 names = it.trace.frames[fid]['names']
                 for fact in sorted(flows(it.trace, fid), key=str):
                     vs = {nm for nm in names.get(fact[-1], ())} - dovars
                     if not vs:
                         continue
-                    rvia = fact[-2]
+                    rinner, rvia = fact[-3], fact[-2]
                     host_read = False
                     if rvia is not None and rvia in table and table[rvia]['kind'] == 'call':
                         st = table[rvia]['stmt']
@@ -155,19 +251,25 @@ def check_case(case, ctx):
                             continue
                         nontrivial = True
                         classes.add('carried-flow')
+                        classes.add('carried-flow:' + ('array' if vs & arrays else 'scalar'))
                         if lp not in carried_cache:
                             carried_cache[lp] = names_of(loop_carried_dependencies(node))
                         rep = carried_cache[lp]
                         for v in sorted(vs - rep):
-                            both = (v in names_of(node.defines_symbols), v in names_of(node.uses_symbols))
-                            why = {(True, False): 'defined-but-not-in-uses(may-define-kills-use)', (False, True): 'used-but-not-in-defines',
-                                   (False, False): 'neither-used-nor-defined', (True, True): 'in-both-but-missing'}[both]
+                            in_d, in_u = v in names_of(node.defines_symbols), v in names_of(node.uses_symbols)
                             if host_read:
                                 why = 'read-by-internal-procedure-through-host-association'
-                            classes.add('carried-flow:' + ('host-read' if host_read else 'direct'))
+                            elif in_d and not in_u:
+                                why = use_miss_reason(case, table, node, v, rinner, arrays)
+                            elif in_u and not in_d:
+                                why = 'used-but-not-in-defines'
+                            elif not in_u:
+                                why = 'neither-used-nor-defined'
+                            else:
+                                why = 'in-both-but-missing'
                             ctx.fail(f'C27:loop-carried-missed:{why}', case,
-                                     f'loop {lp}: {v} written in an earlier and read in a later iteration; reported {sorted(rep)}; '
-                                     f'stmt={str(table[lp]["stmt"])[:300]}')
+                                     f'loop {lp}: {v} written in an earlier and read in a later iteration (read by {rinner}); '
+                                     f'reported {sorted(rep)}; stmt={str(table[lp]["stmt"])[:300]}')
                     else:
                         _, parent, iw, ir_, rinner, _rv, cid = fact
                         if parent == 'body':
@@ -186,31 +288,39 @@ def check_case(case, ctx):
                                 continue
                             nontrivial = True
                             classes.add('raw-flow' + ('' if parent == 'body' else ':in-loop-body'))
+                            classes.add('raw-flow:' + ('array' if vs & arrays else 'scalar'))
+                            if k < ir_:
+                                classes.add('raw-flow:statements-between-point-and-read')
                             key = (parent, k)
                             if key not in raw_cache:
                                 raw_cache[key] = names_of(read_after_write_vars(ir_root, node))
                             rep = raw_cache[key]
                             for v in sorted(vs - rep):
-                                wnode, rnode = nodes.get(f'{parent}.{iw}'), nodes.get(f'{parent}.{ir_}')
-                                rkind = table.get(f'{parent}.{ir_}', {}).get('kind', '?')
-                                wkind = table.get(f'{parent}.{iw}', {}).get('kind', '?')
+                                reader = f'{parent}.{ir_}'
+                                if key not in writes_cache:
+                                    fw = FindWrites(stop=node, active=True)
+                                    fw.visit(ir_root)
+                                    writes_cache[key] = names_of(fw.writes)
                                 if host_read:
                                     why = 'read-by-internal-procedure-through-host-association'
-                                elif rnode is not None and v not in names_of(rnode.uses_symbols):
-                                    why = why_uses_missing(case, table, nodes, f'{parent}.{ir_}', rinner, v)
-                                elif wnode is not None and v not in names_of(wnode.defines_symbols):
-                                    why = f'writer-defines-set-misses-it:{wkind}'
+                                elif v not in writes_cache[key]:
+                                    why = 'writer-defines-set-misses-it:' + table.get(f'{parent}.{iw}', {}).get('kind', '?')
                                 else:
-                                    between = [(table.get(f'{parent}.{j}', {}).get('kind'), nodes.get(f'{parent}.{j}')) for j in range(k, ir_)]
-                                    clearing = sorted({bk for bk, b in between if b is not None and v in names_of(b.defines_symbols)})
-                                    if clearing:
-                                        why = 'candidate-cleared-by-intermediate-partial-or-conditional-write'
-                                        classes.add('raw-cleared-by:' + clearing[0])
+                                    events = diagnose_raw(ir_root, node, v)
+                                    clears = [e for e in events if e[0] == 'clear']
+                                    rnode = reading_leaf(reader, rinner)
+                                    if any(e[0] == 'read' for e in events):
+                                        why = 'query-logic:model-of-FindReads-predicts-a-report'
+                                    elif clears and clears[0][1] is not rnode:
+                                        why = clear_reason(clears[0], v, arrays)
+                                    elif rnode is None:
+                                        why = 'no-read-registered'
                                     else:
-                                        why = f'query-logic:writer={wkind}:reader={rkind}'
+                                        # the leaf node that contains the read does not list v in its uses set
+                                        why = use_miss_reason(case, table, rnode, v, rinner or reader, arrays)
                                 ctx.fail(f'C27:read-after-write-missed:{why}', case,
-                                         f'{v} written by statement {parent}.{iw} and read by {parent}.{ir_}, inspection point {parent}.{k}; '
-                                         f'reported {sorted(rep)}')
+                                         f'{v} written by statement {parent}.{iw} and read by {reader} (in {rinner}), '
+                                         f'inspection point {parent}.{k}; reported {sorted(rep)}')
     except Exception as e:  # noqa
         ctx.fail(f'C27:query-raises:{exc_bucket(e)}', case, repr(e)[:400])
     ctx.case(case, nontrivial, sorted(classes))
@@ -218,8 +328,14 @@ def check_case(case, ctx):
         ctx.sample({'source': rendered[0]['text'][:2500]})
 
 
+def search_case(case, ctx):
+    ctx.exclude(dc.EXCLUDED_BY_CONSTRUCTION)
+    ctx.exclude(EXCLUDED_INQUIRY)
+    check_case(case, ctx)
+
+
 def run_shard(ctx):
-    ctx.given(gen.cases(PROFILE), check_case, ctx.scale(1200, 20000))
+    ctx.given(dc.cases(PROFILE), search_case, ctx.scale(1200, 20000))
 
 
 def replay(case, ctx):
